@@ -93,7 +93,7 @@ def replay_validate(run, scen_lines, driver_args, trace_module, trace_cfg, label
                 what = "event %s cannot be explained by the specification" % json.dumps(r1.get("unmatched")) if "unmatched" in r1 \
                     else "invariant %s violated by the recorded execution" % r1.get("invariant")
                 # how often does it reproduce?
-                rep = reproduce(run, scen_line, driver_args, trace_module, trace_cfg, wd, race) if scen_line else None
+                rep = reproduce(run, scen_line, driver_args, trace_module, trace_cfg, wd, race, first_seed=run.seed * 1000 + i + seed_offset) if scen_line else None
                 run.violation("%s: %s (line %s of the scenario's trace; reproduced %s)" % (label, what, r1.get("line"), rep),
                               {"kind": "trace", "module": trace_module, "cfg": trace_cfg, "driver_args": driver_args,
                                "scenario": scen_line, "trace": bad, "tlc": r1["out"][-3000:], "reproduced": rep})
@@ -121,13 +121,15 @@ def replay_validate(run, scen_lines, driver_args, trace_module, trace_cfg, label
     return nvalid
 
 
-def reproduce(run, scen_line, driver_args, trace_module, trace_cfg, wd, race, times=2):
+def reproduce(run, scen_line, driver_args, trace_module, trace_cfg, wd, race, times=2, first_seed=None):
+    """re-run the single scenario: first with the seed of the shard it came from (same concrete values), then another"""
     ok = 0
     for k in range(times):
         sf = os.path.join(wd, "re.ndjson")
         tf = os.path.join(wd, "re-trace.ndjson")
         open(sf, "w").write(scen_line + "\n")
-        rc, so, se = run.run_driver(driver_args + ["-scen", sf, "-out", tf, "-seed", str(run.seed + 7919 * k)], timeout=120, race=race)
+        sd = first_seed if (k == 0 and first_seed is not None) else run.seed + 7919 * k
+        rc, so, se = run.run_driver(driver_args + ["-scen", sf, "-out", tf, "-seed", str(sd)], timeout=120, race=race)
         if rc != 0:
             continue
         r = run.validate_trace(trace_module, trace_cfg, tf, timeout=300)
